@@ -76,7 +76,8 @@ O2J_ROLES = {
     "read_events_note": (
         ("notes", lambda n, v, st, node: isinstance(v, ast.List) and not v.elts and any(isinstance(x, ast.Return) and _u(x.value) == n for x in ast.walk(node))),
         ("event_count", lambda n, v, st: isinstance(v, ast.BinOp) and isinstance(v.op, ast.FloorDiv) and _u(v.left) == "len(data)"),
-        ("i", lambda n, v, st: _for_target(st, n, lambda it: _u(it) == "range(event_count)")),
+        ("i", lambda n, v, st: _for_target(st, n, lambda it: _u(it) == "range(event_count)") or
+         _for_target(st, n, lambda it: isinstance(it, ast.Call) and call_name(it) == "enumerate", 0)),
         ("enabled", lambda n, v, st: _unpack_of(v, "<h")),
         ("sub_measure", lambda n, v, st: isinstance(v, ast.BinOp) and "curr_measure" in _u(v) and "event_count" in _u(v)),
         ("volume_pan", lambda n, v, st: _unpack_of(v, "<s")),
@@ -89,7 +90,8 @@ O2J_ROLES = {
     "read_events_bpm": (
         ("event_count", lambda n, v, st: isinstance(v, ast.BinOp) and isinstance(v.op, ast.FloorDiv) and _u(v.left) == "len(data)"),
         ("bpms", lambda n, v, st, node: isinstance(v, ast.List) and not v.elts and any(isinstance(x, ast.Return) and _u(x.value) == n for x in ast.walk(node))),
-        ("i", lambda n, v, st: _for_target(st, n, lambda it: _u(it) == "range(event_count)")),
+        ("i", lambda n, v, st: _for_target(st, n, lambda it: _u(it) == "range(event_count)") or
+         _for_target(st, n, lambda it: isinstance(it, ast.Call) and call_name(it) == "enumerate", 0)),
         ("bpm", lambda n, v, st: _unpack_of(v, "<f") or (isinstance(v, ast.Call) and call_name(v) == "O2JBpm")),
     ),
     "read_pkgs": (
@@ -273,6 +275,39 @@ def _slice_bounds(n: ast.Subscript, ivar: Optional[str]) -> Optional[Tuple[sym.R
     return None
 
 
+def _iter_unpack_fields(fn_node):
+    """`for i, (a, b, c) in enumerate(iter_unpack("<hBc", data[..]))` (the iterable possibly through a local bound once):
+    {name: (format of the field, lower bound, upper bound, node)} with the bounds as formulas over the index variable, plus that
+    variable's name.  Record i of an iter_unpack covers bytes [S*i, S*(i+1)), field k sits at the size of the fields before it."""
+    out, ivar = {}, None
+    for lp in ast.walk(fn_node):
+        if not (isinstance(lp, ast.For) and isinstance(lp.iter, ast.Call) and call_name(lp.iter) == "enumerate" and lp.iter.args and
+                isinstance(lp.target, ast.Tuple) and len(lp.target.elts) == 2 and isinstance(lp.target.elts[0], ast.Name)):
+            continue
+        src = _resolve_local(fn_node, lp.iter.args[0])
+        if not (isinstance(src, ast.Call) and call_name(src) == "iter_unpack" and len(src.args) == 2 and isinstance(src.args[0], ast.Constant) and
+                isinstance(src.args[0].value, str) and src.args[0].value[:1] in "<>=!"):
+            continue
+        fmt = src.args[0].value
+        rec = lp.target.elts[1]
+        names = [t.id if isinstance(t, ast.Name) else None for t in (rec.elts if isinstance(rec, ast.Tuple) else [rec])]
+        if len(names) != len(fmt) - 1:
+            continue
+        try:
+            S = struct.calcsize(fmt)
+        except struct.error:
+            continue
+        ivar = lp.target.elts[0].id
+        for k, nm in enumerate(names):
+            if nm is None:
+                continue
+            lo = struct.calcsize(fmt[0] + fmt[1:1 + k])
+            hi = struct.calcsize(fmt[0] + fmt[1:2 + k])
+            out[nm] = (fmt[0] + fmt[1 + k], sym.parse(f"{S}*{ivar}+{lo}"), sym.parse(f"{S}*{ivar}+{hi}"), lp)
+    return out, ivar
+
+
+
 def rule_r2(ctx) -> List[R.Inst]:
     M = ctx.M
     rid = "C07.R2"
@@ -382,6 +417,11 @@ def rule_r2(ctx) -> List[R.Inst]:
                         b = _slice_bounds(sl[0], iv)
                         if b:
                             seen[n.targets[0].id] = (c.args[0].value, b, n)
+    iu, iu_var = _iter_unpack_fields(nf.node)
+    for nm_, (f_, lo_, hi_, node_) in iu.items():
+        seen.setdefault(nm_, (f_, (lo_, hi_), node_))
+    if iu and iv is None or (iu and iu_var):
+        iv = iu_var or iv
     f2 = M.mods[nf.mod].rel
     for nm, (fmtc, lo, hi) in spec.items():
         key = f"note-event:{nm}"
@@ -390,7 +430,9 @@ def rule_r2(ctx) -> List[R.Inst]:
             continue
         g = seen[nm]
         L, H = sym.parse(lo.replace("I", iv or "i")), sym.parse(hi.replace("I", iv or "i"))
-        if g[0] == fmtc and g[1][0].same(L) and g[1][1].same(H):
+        # one unsigned byte read as a number ("<B") is what "<s" + int.from_bytes(.., "little") yields
+        same_fmt = g[0] == fmtc or (fmtc == "<s" and g[0] == "<B")
+        if same_fmt and g[1][0].same(L) and g[1][1].same(H):
             insts.append(R.ok(rid, key, f2, g[2].lineno, idiom=f"{fmtc} over [{lo}:{hi}]"))
         else:
             insts.append(R.viol(rid, key, f2, g[2].lineno,
@@ -399,8 +441,8 @@ def rule_r2(ctx) -> List[R.Inst]:
     # volume / pan split
     vp = [n for n in walk_no_nested(nf.node) if isinstance(n, ast.Assign) and isinstance(n.targets[0], ast.Tuple) and
           [unparse(t) for t in n.targets[0].elts] == ["volume", "pan"]]
-    if len(vp) == 1 and isinstance(vp[0].value, ast.Tuple) and [unparse(v) for v in vp[0].value.elts] == \
-            ["volume_pan // 16", "volume_pan % 16"]:
+    if len(vp) == 1 and ((isinstance(vp[0].value, ast.Tuple) and [unparse(v) for v in vp[0].value.elts] == ["volume_pan // 16", "volume_pan % 16"]) or
+                         unparse(vp[0].value) == "divmod(volume_pan, 16)"):
         insts.append(R.ok(rid, "note-event:volume/pan", f2, vp[0].lineno, idiom="high nibble volume, low nibble pan"))
     else:
         insts.append((R.viol if vp else R.undec)(rid, "note-event:volume/pan", f2, (vp[0] if vp else nf.node).lineno,
@@ -419,6 +461,11 @@ def rule_r2(ctx) -> List[R.Inst]:
             sl = [x for x in ast.walk(n.args[1]) if isinstance(x, ast.Subscript) and isinstance(x.slice, ast.Slice)]
             if sl:
                 tb = (n.args[0].value, _slice_bounds(sl[0], iv2), n)
+    if tb is None:
+        iu2, iu2_var = _iter_unpack_fields(bf.node)
+        if len(iu2) == 1:
+            (f_, lo_, hi_, node_), = iu2.values()
+            tb, iv2 = (f_, (lo_, hi_), node_), iu2_var
     if tb and tb[1] and tb[0] == "<f" and tb[1][0].same(sym.parse(f"4*{iv2}")) and tb[1][1].same(sym.parse(f"4*{iv2}+4")):
         insts.append(R.ok(rid, "tempo-event", f3, tb[2].lineno, idiom="<f over [4i:4i+4]"))
     else:
@@ -617,8 +664,19 @@ def rule_r5(ctx) -> List[R.Inst]:
         # loop enumerates every slot from 0
         loops = [n for n in walk_no_nested(fn.node) if isinstance(n, ast.For) and isinstance(n.iter, ast.Call) and
                  call_name(n.iter) == "range"]
+        iu, iu_var = _iter_unpack_fields(fn.node)
         if len(loops) == 1 and len(loops[0].iter.args) == 1 and unparse(loops[0].iter.args[0]) == "event_count":
             insts.append(R.ok(rid, f"{meth}:slots", file, loops[0].lineno, idiom="for i in range(event_count)"))
+        elif iu and not loops:
+            # enumerate(iter_unpack(fmt, data[: event_count * size])): records 0 .. event_count - 1, counted from 0
+            lp_ = next(iter(iu.values()))[3]
+            en = lp_.iter
+            src = _resolve_local(fn.node, en.args[0])
+            sl_ = src.args[1] if isinstance(src, ast.Call) and len(src.args) == 2 else None
+            whole = isinstance(sl_, ast.Subscript) and isinstance(sl_.slice, ast.Slice) and sl_.slice.lower is None and sl_.slice.upper is not None and \
+                sym.same_formula(sl_.slice.upper, "event_count * 4") and len(en.args) == 1 and not en.keywords
+            insts.append(R.ok(rid, f"{meth}:slots", file, lp_.lineno, idiom="enumerate over the event_count 4-byte records, from 0") if whole else
+                         R.undec(rid, f"{meth}:slots", file, lp_.lineno, "extent / start of the enumerated records not recognised"))
         else:
             insts.append(R.viol(rid, f"{meth}:slots", file, (loops[0] if loops else fn.node).lineno,
                                 "every slot 0..n-1 of a package must be visited", construct=unparse(loops[0].iter) if loops else ""))
